@@ -25,25 +25,88 @@ PNS = 'urn:p'
 XSD = 'http://www.w3.org/2001/XMLSchema'
 # own schema head (lib_cm.HEAD belongs to C01 and may change): h is the head of {s, q (abstract), d (member of
 # q), s2 (member of s)}
-HEAD = (f'<xs:schema xmlns:xs="{XSD}" targetNamespace="{TNS}" xmlns:t="{TNS}" elementFormDefault="qualified">\n'
-        '<xs:element name="a" type="xs:string"/><xs:element name="b" type="xs:string"/>'
-        '<xs:element name="c" type="xs:string"/><xs:element name="h" type="xs:string"/>'
-        '<xs:element name="s" type="xs:string" substitutionGroup="t:h"/>'
-        '<xs:element name="q" type="xs:string" substitutionGroup="t:h" abstract="true"/>'
-        '<xs:element name="d" type="xs:string" substitutionGroup="t:q"/>'
-        '<xs:element name="s2" type="xs:string" substitutionGroup="t:s"/>'
-        # a substitution group whose members have OTHER types than the head (derived, as the XSD requires): head hd,
-        # member md, member of the member md2
-        '<xs:element name="hd" type="xs:decimal"/>'
-        '<xs:element name="md" type="xs:integer" substitutionGroup="t:hd"/>'
-        '<xs:element name="md2" type="xs:int" substitutionGroup="t:md"/>\n')
+# the global element declarations of the schema head: (name, type, substitutionGroup, abstract)
+GLOBALS = [('a', 'string', None, False), ('b', 'string', None, False), ('c', 'string', None, False),
+           ('h', 'string', None, False), ('s', 'string', 'h', False), ('q', 'string', 'h', True),
+           ('d', 'string', 'q', False), ('s2', 'string', 's', False),
+           # a substitution group whose members have OTHER types than the head (derived, as the XSD requires): head
+           # hd, member md, member of the member md2
+           ('hd', 'decimal', None, False), ('md', 'integer', 'hd', False), ('md2', 'int', 'md', False)]
+MEMBERS = {'h': ['s', 'q'], 's': ['s2'], 'q': ['d'], 'hd': ['md'], 'md': ['md2']}
+# block dimension: name -> (blockDefault of the schema or None, {global element: its block attribute}).  The
+# configurations are those in which the implementation's registration of substitution members (per head, by the
+# head's own {disallowed substitutions}) and the specification's substitution group coincide.
+_ALL_HEADS = ('h', 's', 'q', 'hd', 'md')
+BLOCK_CFGS = {
+    'bd=substitution': ('substitution', {}),
+    'bd=substitution,heads=""': ('substitution', {k: '' for k in _ALL_HEADS}),
+    'bd=#all,heads=""': ('#all', {k: '' for k in _ALL_HEADS}),
+    'h,hd=substitution': (None, {'h': 'substitution', 'hd': 'substitution'}),
+    'heads=""': (None, {k: '' for k in _ALL_HEADS}),
+    'bd=substitution,s,md=""': ('substitution', {'s': '', 'md': ''}),
+}
+
+
+def _make_head(bd: Optional[str], blocks: dict) -> str:
+    out = (f'<xs:schema xmlns:xs="{XSD}" targetNamespace="{TNS}" xmlns:t="{TNS}" elementFormDefault="qualified"'
+           + (f' blockDefault="{bd}"' if bd is not None else '') + '>\n')
+    for name, typ, sg, abstract in GLOBALS:
+        out += (f'<xs:element name="{name}" type="xs:{typ}"' + (f' substitutionGroup="t:{sg}"' if sg else '')
+                + (' abstract="true"' if abstract else '') + (f' block="{blocks[name]}"' if name in blocks else '') + '/>')
+    return out + '\n'
+
+
+def _make_subst(bd: Optional[str], blocks: dict) -> dict:
+    """generator-level substitution closure = the names an element *reference* matches by name (the abstract member
+    q is not listed): a head whose effective block (its own attribute, else blockDefault) contains `substitution`
+    (or is #all) has no substitution group"""
+    def blocked(x: str) -> bool:
+        eff = blocks[x] if x in blocks else (bd or '')
+        return eff == '#all' or 'substitution' in eff.split()
+
+    def members(x: str) -> list:
+        if blocked(x):
+            return []
+        out = []
+        for m in MEMBERS.get(x, []):
+            if m != 'q':
+                out.append(m)
+            out.extend(members(m))
+        return out
+    return {x: [x] + members(x) for x in MEMBERS if x != 'q' and members(x)}
+
+
+HEAD = _make_head(None, {})
 # type of every global element declaration of HEAD
 GLOBAL_TYPE = {'a': 'string', 'b': 'string', 'c': 'string', 'h': 'string', 's': 'string', 'q': 'string', 'd': 'string',
                's2': 'string', 'hd': 'decimal', 'md': 'integer', 'md2': 'int'}
 
 # generator-level substitution closure = the names an element *reference* matches by name (the abstract member q
 # is matched by name too: the abstract check comes after attribution)
-SUBST = {'h': ['h', 's', 's2', 'd'], 's': ['s', 's2'], 'hd': ['hd', 'md', 'md2'], 'md': ['md', 'md2']}
+SUBST = _make_subst(None, {})
+assert SUBST == {'h': ['h', 's', 's2', 'd'], 's': ['s', 's2'], 'hd': ['hd', 'md', 'md2'], 'md': ['md', 'md2']}
+BLOCK_CFG: Optional[str] = None
+
+
+def set_block_cfg(name: Optional[str]) -> None:
+    """selects the block configuration of the schema head for the models built and judged from now on"""
+    global HEAD, SUBST, BLOCK_CFG
+    bd, blocks = BLOCK_CFGS[name] if name else (None, {})
+    HEAD, SUBST, BLOCK_CFG = _make_head(bd, blocks), _make_subst(bd, blocks), name
+
+
+def block_models() -> list[tuple]:
+    """every ordered pair of references into the two substitution groups in the shapes where a head competes with a
+    member: choice(x, y), sequence(x?, y), sequence(x, y), sequence(x, b, y?)"""
+    pool = ['h', 's', 's2', 'd', 'hd', 'md', 'md2']
+    out = []
+    for x in pool:
+        for y in pool:
+            out.append(('g', 'choice', 1, 1, [('e', x, 1, 1), ('e', y, 1, 1)]))
+            out.append(('g', 'sequence', 1, 1, [('e', x, 0, 1), ('e', y, 1, 1)]))
+            out.append(('g', 'sequence', 1, 1, [('e', x, 1, 1), ('e', y, 1, 1)]))
+            out.append(('g', 'sequence', 1, 1, [('e', x, 1, 1), ('e', 'b', 1, 1), ('e', y, 0, 1)]))
+    return out
 
 # wildcard specs -> (xsd attributes, needs 1.1)
 WC_SPECS = {
